@@ -66,7 +66,12 @@ def run(prog, tier, res):
     ok = len(fifo_calls) == 1 and len(empties) == 1 and cb.dominates(fifo_calls[0], empties[0]) and fifo_calls[0] != empties[0]
     check(res, R1, ok, board_closure, "is-empty-after-parse", "`input.is_empty()` is not evaluated after the single chronobox_fifo(&mut input) call", cb.where())
     # position closure (epoch 0 marker)
-    pos = [p for p in prog.bodies if p.startswith(board_closure + "::{closure")]
+    pos = []
+    for bb_, t_ in cb.calls():
+        if short(cname(t_)) == "Iterator::position" and len(t_["args"]) == 2:
+            c_ = strip(can.terms.operand(t_["args"][1]))
+            if c_[0] == "aggr" and c_[1].startswith("closure:"):
+                pos.append(c_[1][len("closure:"):])
     ptabs = sorted(json.dumps([[a, v] for a, v in accept.ret_table(prog, p)]) for p in pos)
     cmp(res, R1, board_closure, "epoch0-predicate", [json.loads(x) for x in ptabs], spec["epoch0_predicates"], "epoch-0 marker predicate")
 
